@@ -165,7 +165,11 @@ def finish(prop, mod, recs, tier, seed, t0, replay_fn, verbose=False, bounded=No
                   f"obs={len(rec['obligations'])} gen={rec.get('gen_s')}s err={rec.get('error')}")
             if rec.get("status") != "ok" and rec.get("trace"):
                 print(rec["trace"])
+            shown = 0
             for o in rec["obligations"]:
                 if o["verdict"] not in ("proved",):
-                    print(f"    {o['verdict']:9s} {o['name']} path={o['path']} {o.get('reason') or ''} {json.dumps(o.get('model', {}), default=str)[:300]}")
+                    shown += 1
+                    if shown > 12:
+                        continue
+                    print(f"    {o['verdict']:9s} {o['name']} path={o['path']} {o.get('reason') or ''} {json.dumps(o.get('model', {}), default=str)[:400]}")
     return rc
